@@ -235,24 +235,36 @@ def _leave_one_out(ctx, index, lines, by_id, name, d, devs, dv, skip):
     """is deviation dv needed?  The whole batch is validated with every open deviation but dv; the first scenario that
     is rejected then (and is accepted with dv, since the lenient pass accepted it) shows the recorded defect.
     Returns None or {scenario, line, fields}."""
-    todo = [e for e in index if e["id"] not in skip]
-    cur = os.path.join(d, "%s_without_%s.ndjson" % (name, dv))
-    with open(cur, "w") as fh:
-        for e in todo:
-            fh.write("\n".join(lines[e["from"] - 1: e["to"]]) + "\n")
-    acc, hwm, res, mm = tlc_validate(ctx, cur, deviation=[x for x in devs if x != dv])
-    if acc:
-        return None
-    if "Invariant" in (res.violation or "") and hwm is not None:
-        hwm -= 1
-    if hwm is None:
-        raise vlib.MachineryError("leave-one-out pass for %s rejected without a position:\n%s" % (dv, "\n".join(res.tail[-20:])))
-    bad, rel = _locate(todo, hwm)
-    if bad is None:
-        raise vlib.MachineryError("rejected line %s outside every scenario" % hwm)
-    seg = lines[bad["from"] - 1: bad["to"]]
-    fields = explain(seg, rel, mm) if mm and mm["line"] == hwm else None
-    return {"scenario": bad["id"], "line": rel, "fields": fields, "event": None if fields else (seg[rel - 1][:300] if 0 < rel <= len(seg) else None)}
+    rest = [e for e in index if e["id"] not in skip]
+    # growing chunks: TLC reads the whole file before it starts, and the first occurrence usually comes early
+    chunks = []
+    for size in (40, 200):
+        if rest:
+            chunks.append(rest[:size])
+            rest = rest[size:]
+    while rest:
+        chunks.append(rest[:600])
+        rest = rest[600:]
+    for ci, todo in enumerate(chunks):
+        cur = os.path.join(d, "%s_without_%s_%d.ndjson" % (name, dv, ci))
+        with open(cur, "w") as fh:
+            for e in todo:
+                fh.write("\n".join(lines[e["from"] - 1: e["to"]]) + "\n")
+        acc, hwm, res, mm = tlc_validate(ctx, cur, deviation=[x for x in devs if x != dv])
+        os.remove(cur)
+        if acc:
+            continue
+        if "Invariant" in (res.violation or "") and hwm is not None:
+            hwm -= 1
+        if hwm is None:
+            raise vlib.MachineryError("leave-one-out pass for %s rejected without a position:\n%s" % (dv, "\n".join(res.tail[-20:])))
+        bad, rel = _locate(todo, hwm)
+        if bad is None:
+            raise vlib.MachineryError("rejected line %s outside every scenario" % hwm)
+        seg = lines[bad["from"] - 1: bad["to"]]
+        fields = explain(seg, rel, mm) if mm and mm["line"] == hwm else None
+        return {"scenario": bad["id"], "line": rel, "fields": fields, "event": None if fields else (seg[rel - 1][:300] if 0 < rel <= len(seg) else None)}
+    return None
 
 
 def validate(ctx, scenarios, name, par=32, jvms=3, max_reject=4):
